@@ -125,3 +125,19 @@ Example C06_guard_is_textual :
   inside cwd_w [47;97;47;114;101;99] [47;97;47;114;101;99;50;47;120] = Some [47;97;47;114;101;99;50;47;120]
   /\ path_under [47;97;47;114;101;99] [47;97;47;114;101;99;50;47;120] = false.
 Proof. vm_compute. split; reflexivity. Qed.
+
+(* the guard restated with filepath.Abs alone: Abs(Clean(x)) = Abs(x) for every path x *)
+Theorem C06_abs_clean : forall cwd p, rooted cwd = true -> abs cwd (clean p) = abs cwd p.
+Proof. exact abs_clean. Qed.
+Print Assumptions C06_abs_clean.
+
+Theorem C06_inside_guard_abs : forall cwd base cand p, rooted cwd = true -> inside cwd base cand = Some p ->
+  p = abs cwd cand /\ is_prefix (abs cwd base) p = true.
+Proof. exact inside_guard_abs. Qed.
+Print Assumptions C06_inside_guard_abs.
+
+(* the guard never refuses the record path of an accepted name under a covered format *)
+Theorem C06_guard_passes : forall cwd f ts n, valid n = true -> format_ok f = true -> cwd_ok cwd = true ->
+  inside cwd (common_path f) (expand_path f ts n) = Some (find_record_path cwd f ts n).
+Proof. exact guard_passes. Qed.
+Print Assumptions C06_guard_passes.
